@@ -48,6 +48,17 @@ func (k BaseKeeper) InitGenesis(ctx sdk.Context, genState *types.GenesisState) {
 	for _, supply := range totalBalance {
 		k.setTotalBalanceOfCoin(ctx, supply)
 	}
+
+	// ensure the dao module account is set on genesis and holds exactly the pooled funds
+	macc := k.ak.GetModuleAccount(ctx, types.ModuleName)
+	if macc == nil {
+		panic("the ucdao module account has not been set")
+	}
+
+	pool := k.bk.GetAllBalances(ctx, macc.GetAddress())
+	if len(pool) != len(totalBalance) || !pool.IsAllGTE(totalBalance) || !totalBalance.IsAllGTE(pool) {
+		panic(fmt.Errorf("ucdao module account balance does not match the total balance of the holders, expected %v, got %v", totalBalance, pool))
+	}
 }
 
 // ExportGenesis returns the bank module's genesis state.
